@@ -6,7 +6,8 @@ use crate::srv::{self, FramesBody, HttpOut};
 use jsonrpsee_server::HttpRequest;
 use serde_json::json;
 
-const METHODS: [&str; 10] = ["GET", "POST", "PUT", "DELETE", "PATCH", "HEAD", "OPTIONS", "TRACE", "CONNECT", "FOO"];
+// method tokens are case-sensitive (RFC 9110 §9.1): `post` is an extension method, not POST
+const METHODS: [&str; 16] = ["GET", "POST", "PUT", "DELETE", "PATCH", "HEAD", "OPTIONS", "TRACE", "CONNECT", "FOO", "post", "Post", "pOsT", "POSTS", "POS", "get"];
 const ACCEPTED: [&str; 6] = [
 	"application/json",
 	"application/json; charset=utf-8",
@@ -187,7 +188,7 @@ fn judge_a(rep: &Reporter, prefix: &str, method: &str, ct: &Option<Vec<String>>,
 pub fn check(rep: &Reporter) {
 	let thorough = rep.tier.thorough();
 	rep.set_rule(
-		"(A) 10 HTTP methods × content-type values (the six accepted spellings in every letter-case variant — all 2^k for k ≤ 15 letters, 4 styles per word for longer ones —, 22 near misses, missing header, duplicated header) with a fixed valid call as body, and (A') every method × {none, the accepted spellings in 3 letter-case styles, every near miss, 4 duplicate pairs} as raw HTTP/1.1 requests through Server::start over loopback TCP; (A'') the same methods × 6 paths with ProxyGetRequestLayer(/health) installed: only GET /health is redirected; (B) 19 bodies (calls, notification, batches, invalid, truncated, non-JSON, 0/1/126/127/128 leading blanks) × splits into consecutive chunks (quick: all splits into ≤3 chunks, thinned for bodies > 90 bytes, and the 4-chunk splits touching an end or on a stride; thorough: all splits into ≤4 chunks of bodies ≤ 64 bytes and into 5 chunks of bodies ≤ 40 bytes) × {no extra chunk, an empty chunk or a blank-only chunk inserted at every boundary incl. front and back} × Content-Length {absent, exact}; differential oracle: (status, body, invocation log) equals the single-frame request of the same bytes; the 1- and 2-chunk splits are repeated on a service whose max_request_body_size equals the body length. Distinct by (method, content-type) resp. (body, frame sequence, content-length); all non-trivial.",
+		"(A) 16 HTTP method tokens (the nine standard ones, FOO, and the near-POST tokens post / Post / pOsT / POSTS / POS / get) × content-type values (the six accepted spellings in every letter-case variant — all 2^k for k ≤ 15 letters, 4 styles per word for longer ones —, 22 near misses, missing header, duplicated header) with a fixed valid call as body, and (A') every method × {none, the accepted spellings in 3 letter-case styles, every near miss, 4 duplicate pairs} as raw HTTP/1.1 requests through Server::start over loopback TCP; (A'') the same methods × 6 paths with ProxyGetRequestLayer(/health) installed: only GET /health is redirected; (B) 19 bodies (calls, notification, batches, invalid, truncated, non-JSON, 0/1/126/127/128 leading blanks) × splits into consecutive chunks (quick: all splits into ≤3 chunks, thinned for bodies > 90 bytes, and the 4-chunk splits touching an end or on a stride; thorough: all splits into ≤4 chunks of bodies ≤ 64 bytes and into 5 chunks of bodies ≤ 40 bytes) × {no extra chunk, an empty chunk or a blank-only chunk inserted at every boundary incl. front and back} × Content-Length {absent, exact}; differential oracle: (status, body, invocation log) equals the single-frame request of the same bytes; the 1- and 2-chunk splits are repeated on a service whose max_request_body_size equals the body length. Distinct by (method, content-type) resp. (body, frame sequence, content-length); all non-trivial.",
 	);
 	rep.assume("the tower service Server uses per connection is called directly; hyper's own framing is not in the loop");
 	let cfg = || srv::cfg_builder().build();
